@@ -143,6 +143,23 @@ def canon_test(name, args):
     std callees are named by their last two path segments (as in operand descriptions), repo callees by their full path"""
     short = "::".join(name.split("::")[-2:])
     short = re.sub(r"^(option|result)::", "", short)
+    # `a != b` through PartialEq::ne is the negation of `a == b`
+    if re.search(r"(PartialEq(<.*>)?>?::ne|cmp::PartialEq::ne)$", name) or (name.split("::")[-1] == "ne" and (name.startswith("<") or re.match(r"(std|core|alloc)::", name))):
+        return ("eq(%s)" % args, False)
+    # membership of a value in a sequence: `s.contains(&x)`, `s.iter().any(|e| e == x)`, `s.iter().find(|e| e == x).is_some()` are one
+    # test (what the closure compares is a row of its own unless it compares the whole element)
+    if short in ("Option::is_some", "Option::is_none"):
+        m = re.fullmatch(r"(?:find|position)\((.*), (_|\{\|\.\.\| eq\((?:arg\d+, arg1\.#\d+|arg1\.#\d+, arg\d+)\)\})\)", args)
+        if m:
+            return ("member(%s)" % m.group(1), short == "Option::is_some")
+    if name.split("::")[-1] == "any" and (name.startswith("<") or re.match(r"(std|core|alloc)::", name)):
+        m = re.fullmatch(r"(.*), (_|\{\|\.\.\| eq\((?:arg\d+, arg1\.#\d+|arg1\.#\d+, arg\d+)\)\})", args)
+        if m:
+            return ("member(%s)" % m.group(1), True)
+    if re.search(r"(slice::<impl \[T\]>::contains|slice::contains|vec::Vec::contains|Vec::contains)$", name):
+        m = re.fullmatch(r"(.*?), (.*)", args)
+        if m:
+            return ("member(%s)" % m.group(1), True)
     if short in OPT_TESTS and "," not in args:
         pat, pos = OPT_TESTS[short]
         return (pat % args, pos)
